@@ -328,10 +328,15 @@ def hook_receiver(ctx: Ctx, modules: Iterable[str], rule: str = "E8.hook-receive
 
 
 # ------------------------------------------------------------------------------------------------ refresh-before-read in update()
+# self-methods that look at the parameter *slot* (its type / presence), never at predicted values: calling them before the refresh is harmless
+_SLOT_ONLY = {"has_parameters": "isinstance test on self.params", "parameters": "nn.Module iterator", "named_parameters": "nn.Module iterator",
+              "extra_repr": "string", "clear_buffers": "removes derived buffers"}
+
+
 def _reads_parameters(prog, ci, meth_name: str, seen: Set[str]) -> bool:
     """Does self.<meth_name>() — resolved in the concrete class — read the current parameters (self.data() / the 'p' buffer / self.params),
     directly or through other methods of self?"""
-    if meth_name in seen:
+    if meth_name in seen or meth_name in _SLOT_ONLY:
         return False
     seen.add(meth_name)
     fi = prog.find_method(ci, meth_name)
